@@ -339,6 +339,63 @@ static int run_strarr(int kind, const int* ops, int n) {
 
 /* ---- domain: values (cmp / hash / dispatch) ---------------------------------------------------------- */
 
+/* run-time types with 0..8 class instances: name, size, which classes are found, and use as values */
+struct Pt { int64_t x; int64_t y; };
+static void Pt_New(var self, var args) { struct Pt* p = self; p->x = c_int(get(args, $I(0))); p->y = c_int(get(args, $I(1))); }
+static void Pt_Assign(var self, var obj) { struct Pt* p = self; struct Pt* o = obj; p->x = o->x; p->y = o->y; }
+static int Pt_Cmp(var self, var obj) { struct Pt* p = self; struct Pt* o = obj; if (p->x != o->x) return p->x < o->x ? -1 : 1; if (p->y != o->y) return p->y < o->y ? -1 : 1; return 0; }
+static uint64_t Pt_Hash(var self) { struct Pt* p = self; return (uint64_t)(p->x * 31 + p->y); }
+static int64_t Pt_C_Int(var self) { struct Pt* p = self; return p->x + p->y; }
+static int Pt_Show(var self, var out, int pos) { struct Pt* p = self; return print_to(out, pos, "(%li,%li)", $I(p->x), $I(p->y)); }
+static double Pt_C_Float(var self) { return (double)Pt_C_Int(self); }
+static size_t Pt_Len(var self) { return 2; }
+static uint64_t run_rtypes(void) {
+  uint64_t count = 0;
+  for (int n = 0; n <= 8; n++) {
+    dg = 14695981039346656037ULL; T_mark("rtype"); T_u((uint64_t)n);
+    /* the instance objects and the type live for the rest of the process (a type keeps pointers to what it was given) */
+    var inst[8] = { alloc_raw(New), alloc_raw(Assign), alloc_raw(Cmp), alloc_raw(Hash), alloc_raw(C_Int), alloc_raw(Show), alloc_raw(C_Float), alloc_raw(Len) };
+    ((struct New*)inst[0])->construct_with = Pt_New; ((struct Assign*)inst[1])->assign = Pt_Assign; ((struct Cmp*)inst[2])->cmp = Pt_Cmp; ((struct Hash*)inst[3])->hash = Pt_Hash;
+    ((struct C_Int*)inst[4])->c_int = Pt_C_Int; ((struct Show*)inst[5])->show = Pt_Show; ((struct C_Float*)inst[6])->c_float = Pt_C_Float; ((struct Len*)inst[7])->len = Pt_Len;
+    var args = new_raw(Tuple, $S("Pt"), $I(sizeof(struct Pt)));
+    for (int i = 0; i < n; i++) push(args, inst[i]);
+    var T = new_root_with(Type, args);
+    del_raw(args);
+    var classes[] = { New, Assign, Cmp, Hash, C_Int, Show, C_Float, Len, Iter, Get, Copy, Size };
+    for (int round = 0; round < 2; round++) for (size_t c = 0; c < sizeof classes / sizeof *classes; c++) T_u(type_implements(T, classes[c]));
+    T_str(c_str(T)); T_u(size(T));
+    if (n >= 6) {
+      var a = new(T, $I(3), $I(4)), b = new(T, $I(3), $I(4)), c = new(T, $I(5), $I(1));
+      T_u((uint64_t)c_int(a)); T_u(eq(a, b)); T_u(lt(a, c)); T_u(hash(a));
+      var arr = new(Array, T, c, a, b); sort(arr); foreach (x in arr) T_u((uint64_t)c_int(x));
+      var s = new(String); print_to(s, 0, "%$ %$", a, c); T_str(c_str(s));
+      var tb = new(Table, T, Int); set(tb, a, $I(1)); set(tb, c, $I(2)); set(tb, b, $I(3)); T_u(len(tb)); T_u((uint64_t)c_int(get(tb, a)));
+    }
+    emit(dg); count++;
+  }
+  return count;
+}
+
+/* a heap Zip over a heap Map that makes fresh managed objects: the pair handed out is the only holder of the mapped item while
+** the loop body allocates */
+static var cfg_fresh(var x) { return new(Int, $I(c_int(x) * 3 + 1)); }
+static void __attribute__((noinline)) cfg_scrub(void) { volatile char pad[4096]; for (size_t i = 0; i < sizeof pad; i++) pad[i] = 0; }
+static uint64_t run_zipmap(void) {
+  dg = 14695981039346656037ULL; T_mark("zipmap");
+  var base = new(Array, Int);
+  for (int i = 0; i < 40; i++) push(base, $I(i));
+  var m = new(Map, base, $(Function, cfg_fresh));
+  var r = new(Range, $I(40));
+  var z = new(Zip, r, m);
+  foreach (pair in z) {
+    cfg_scrub();
+    for (int k = 0; k < 12; k++) { var g = new(Int, $I(k)); (void)g; }
+    T_u((uint64_t)c_int(get(pair, $I(0)))); T_u((uint64_t)c_int(get(pair, $I(1))));
+  }
+  emit(dg);
+  return 1;
+}
+
 static uint64_t run_values(void) {
   static const int64_t iv[] = { 0, 1, -1, 4294967296LL, -4294967296LL, INT64_MAX, INT64_MIN, 2147483648LL };
   static const double fv[] = { 0.0, -0.0, 1.0, -1.0, 1e300, -1e300, 5e-324, 0.1 };
@@ -361,6 +418,8 @@ static uint64_t run_values(void) {
     T_u(size(types[t]) != 0); T_str(c_str(types[t]));
     emit(dg); count++;
   }
+  count += run_rtypes();
+  count += run_zipmap();
   return count;
 }
 
